@@ -166,8 +166,8 @@ def correspondence(ctx):
     # ---- library modules: linearity / twice / states untouched (oracle on the real code) ----------------------
     per = 12 if ctx.quick else 30
     for fam, gen in zoo.GENERATORS.items():
-        for _ in range(per * 4 if fam == "eigensolve_sparse" else per):   # per-mode adjoint solver caches: more cases
-            case = gen(ctx.nprng)
+        for kk in range(per * 4 if fam == "eigensolve_sparse" else per):   # per-mode adjoint solver caches: more cases
+            case = zoo.generate(fam, ctx.nprng, kk)
             r = call_impl(zoo.linearity_oracle, case, ctx.nprng)
             ctx.evaluations += 1
             ctx.branch("lib." + fam)
